@@ -184,8 +184,28 @@ def run(prog: Program, rep, tier="quick"):
                "empty frame makes the decoder fail with AssertionError", c.lineno)
     f = prog.func(PROTO, "Protocol.read_pkt_line")
     src = norm(f.node, 100000)
-    rep.ob("R19.2", PROTO, f.qual, "obtained payload length compared with the prefix", "len(pkt_contents) + 4 != size" in src
-           or "len(pkt_contents) != size - 4" in src, "", f.node.lineno)
+    # a (dis)equality between the length obtained (+4) and the prefix, whatever temporaries are used
+    from sa.common import expr_key
+    import copy as _copy
+    single = {}
+    for x in ast.walk(f.node):
+        if isinstance(x, ast.Assign) and len(x.targets) == 1 and isinstance(x.targets[0], ast.Name):
+            single.setdefault(x.targets[0].id, []).append(x.value)
+    single = {k: v[0] for k, v in single.items() if len(v) == 1}
+
+    class _Inl(ast.NodeTransformer):
+        def visit_Name(self, node):
+            if isinstance(node.ctx, ast.Load) and node.id in single and node.id not in ("size", "pkt_contents"):
+                return self.visit(_copy.deepcopy(single[node.id]))
+            return node
+    cmp_ok = False
+    for x in ast.walk(f.node):
+        if isinstance(x, ast.Compare) and len(x.ops) == 1 and isinstance(x.ops[0], (ast.Eq, ast.NotEq)):
+            l_, r_ = expr_key(_Inl().visit(_copy.deepcopy(x.left)), F), expr_key(_Inl().visit(_copy.deepcopy(x.comparators[0])), F)
+            pair = {l_, r_}
+            if pair == {"Add(4,len(pkt_contents))", "size"} or pair == {"len(pkt_contents)", "Sub(size,4)"}:
+                cmp_ok = True
+    rep.ob("R19.2", PROTO, f.qual, "obtained payload length compared with the prefix", cmp_ok, "", f.node.lineno)
     f = prog.func(PROTO, "PktLineParser.parse")
     # completeness: the test guarding the delivery compares the frame size with the bytes that are still unconsumed.
     # idiom A (re-slicing): buf[4:size] guarded by size <= len(buf); idiom B (offset P): buf[P+4:P+size] guarded by a test
